@@ -130,8 +130,8 @@ def judge_sync(ctx, cases):
 def correspondence(ctx):
     core.assert_repo_loaded()
     # corpus first, then generated cases (one batch: one set of child interpreters, one model-driver run)
-    sched.explore(ctx, [dict(c) for c in CORPUS] + gen_cases(ctx.rng, ctx.pick(16, 110)), spec, "C15 precedence / exactly once")
-    judge_sync(ctx, sync_cases(ctx.rng, ctx.pick(10, 70)))
+    sched.explore(ctx, [dict(c) for c in CORPUS] + gen_cases(ctx.rng, ctx.pick(12, 110)), spec, "C15 precedence / exactly once")
+    judge_sync(ctx, sync_cases(ctx.rng, ctx.pick(6, 70)))
 
 
 def search(ctx):
